@@ -19,10 +19,10 @@ package main
 
 import (
 	"crypto/sha256"
-	"math/big"
 	"encoding/hex"
 	"encoding/json"
 	"fmt"
+	"math/big"
 	"math/rand"
 	"os"
 	"os/exec"
@@ -56,6 +56,7 @@ import (
 	delegationtypes "github.com/ExocoreNetwork/exocore/x/delegation/types"
 	dogfoodtypes "github.com/ExocoreNetwork/exocore/x/dogfood/types"
 	operatortypes "github.com/ExocoreNetwork/exocore/x/operator/types"
+	oraclemodule "github.com/ExocoreNetwork/exocore/x/oracle"
 	oracletypes "github.com/ExocoreNetwork/exocore/x/oracle/types"
 )
 
@@ -92,6 +93,10 @@ func c08GenScript(seed int64, nblocks int) []c08Block {
 	r := rand.New(rand.NewSource(seed))
 	blocks := make([]c08Block, nblocks)
 	dts := []int64{5, 5, 30, 61, 61, 90, 3600, 3601, 86400, 86401, 7 * 86400}
+	silent := make([]bool, nblocks/10+2) // price rounds (heights 10k+1 … 10k+10) that nobody answers
+	for i := range silent {
+		silent[i] = r.Intn(3) == 0
+	}
 	for i := range blocks {
 		b := &blocks[i]
 		b.Dt = dts[r.Intn(len(dts))]
@@ -126,7 +131,8 @@ func c08GenScript(seed int64, nblocks int) []c08Block {
 				// both validators (or only one) report a price for a feeder; rounds of both feeders start at heights
 				// 1, 11, 21, … and accept submissions for MaxNonce = 3 blocks; outside the window the op is mostly
 				// replaced by a deposit (a few stay, as the invalid stream)
-				if h := i + 1; !(h%10 >= 2 && h%10 <= 4) && r.Intn(6) > 0 {
+				// … and one round in three gets no submission at all (silent[i/10]): it stays open until the window ends
+				if h := i + 1; silent[(h-1)/10] || (!(h%10 >= 2 && h%10 <= 4) && r.Intn(6) > 0) {
 					b.Ops = append(b.Ops, c08Op{Kind: "deposit", A: r.Intn(c08NStakers), C: r.Intn(c08NAssets), Amt: 1 + r.Int63n(90_000_000)})
 					continue
 				}
@@ -158,7 +164,7 @@ func c08GenScript(seed int64, nblocks int) []c08Block {
 			case x < 95:
 				b.Ops = append(b.Ops, c08Op{Kind: "avstask", A: r.Intn(3)})
 			default:
-				b.Ops = append(b.Ops, c08Op{Kind: "avsresult", A: r.Intn(3), B: r.Intn(2), Amt: int64(r.Intn(2))})
+				b.Ops = append(b.Ops, c08Op{Kind: "avsresult", A: r.Intn(64), B: r.Intn(2), Amt: int64(r.Intn(2))})
 			}
 		}
 	}
@@ -228,9 +234,28 @@ type c08World struct {
 	stakers  []common.Address
 	assets   []string // asset addresses
 	avsAddr  string   // dogfood AVS
-	taskAddr string   // task contract address of the extra AVS
-	taskIDs  []uint64
+	avss     []c08AVS
+	tasks    []c08Task
+	restarts []int64
 	opOfAcc  map[int]bool
+}
+
+// two extra AVSs with different asset lists and different operator sets; their tasks are created together, so
+// task groups of DIFFERENT AVSs reach the epoch hook in the same call (one map, several keys)
+type c08AVS struct {
+	Addr, TaskAddr string
+	Assets         []int // indices into c08AssetAddrs
+	Ops            []int // genesis operator indices opted in
+}
+
+type c08Task struct {
+	AVS int
+	ID  uint64
+}
+
+var c08AVSs = []c08AVS{
+	{Addr: "0x00000000000000000000000000000000000c08a5", TaskAddr: "0x3e108c058e8066DA635321Dc3018294cA82ddEdf", Assets: []int{0}, Ops: []int{0}},
+	{Addr: "0x00000000000000000000000000000000000c08b6", TaskAddr: "0x4f219d169f9177eb746432ed4129305db93eeFe0", Assets: []int{0, 1}, Ops: []int{0, 1}},
 }
 
 func c08MutGenesis(app *exocoreapp.ExocoreApp, gs map[string]json.RawMessage) {
@@ -262,6 +287,50 @@ func c08MutGenesis(app *exocoreapp.ExocoreApp, gs map[string]json.RawMessage) {
 	gs[dogfoodtypes.ModuleName] = cdc.MustMarshalJSON(&dg)
 }
 
+// c08RestartHeights: heights H at which the restart process drops the oracle's in-memory singletons between
+// Commit(H-1) and BeginBlock(H) (hook oracle.VerifC14Restart, build tag verif), so that BeginBlock(H) rebuilds them
+// from the committed store (recacheAggregatorContext).  Pure function of the seed: every height with probability
+// 1/4, the heights around the end of a price round's submission window (rounds start at heights 1, 11, 21, …;
+// MaxNonce = 3: based+1 … based+4) with probability 0.7; the quiet-window filter below then decides.
+func c08RestartHeights(seed int64, nblocks int) map[int64]bool {
+	r := rand.New(rand.NewSource(seed ^ 0x5eed0c08))
+	hs := map[int64]bool{}
+	for h := int64(3); h <= int64(nblocks); h++ {
+		p := 25
+		if m := h % 10; m >= 2 && m <= 5 {
+			p = 70 // boundary pool: around the last block of a submission window
+		}
+		if r.Intn(100) < p {
+			hs[h] = true
+		}
+	}
+	return hs
+}
+
+// c08QuietWindow: restart equivalence of the oracle is C14's property and has listed defects (replayed messages
+// lose their nonce, a round finalised by a transaction re-opens, a validator-set change inside the replay window
+// rebuilds the round table).  All of them need a price submission or a validator-set change in the blocks that
+// the recache replays, so the restart variant of THIS suite restarts only when the MaxNonce blocks before H
+// carried no price operation and returned no validator update: the open, unanswered rounds that remain are
+// exactly the state whose recache must be invisible.
+func c08QuietWindow(script []c08Block, obs []c08BlockObs, h int64) bool {
+	for d := int64(1); d <= 4; d++ {
+		i := h - d - 1 // index of block h-d
+		if i < 0 {
+			return false
+		}
+		for _, op := range script[i].Ops {
+			if op.Kind == "price" {
+				return false
+			}
+		}
+		if int(i) >= len(obs) || obs[i].ValUpd != "" {
+			return false
+		}
+	}
+	return true
+}
+
 func runC08Worker(a *Args) error {
 	script := c08Script(a.Seed, a.N)
 	env := NewEnv(EnvCfg{ExtraAccs: c08NAcc, MutGenesis: c08MutGenesis})
@@ -271,8 +340,12 @@ func runC08Worker(a *Args) error {
 		w.stakers = append(w.stakers, addr)
 	}
 	w.avsAddr = avstypes.GenerateAVSAddr(avstypes.ChainIDWithoutRevision(env.ChainID))
-	w.taskAddr = "0x3e108c058e8066DA635321Dc3018294cA82ddEdf"
+	w.avss = c08AVSs
 	var obs []c08BlockObs
+	restartAt := map[int64]bool{}
+	if os.Getenv("C08_RESTART") != "" && os.Getenv("C08_SCENARIO") == "" {
+		restartAt = c08RestartHeights(a.Seed, a.N)
+	}
 	for _, blk := range script {
 		bo := c08BlockObs{Height: env.Header.Height}
 		for _, op := range blk.Ops {
@@ -293,6 +366,10 @@ func runC08Worker(a *Args) error {
 		obs = append(obs, bo)
 		h := env.Header
 		h.Height++
+		if restartAt[h.Height] && c08QuietWindow(script, obs, h.Height) {
+			oraclemodule.VerifC14Restart()
+			w.restarts = append(w.restarts, h.Height)
+		}
 		h.Time = h.Time.Add(time.Duration(blk.Dt) * time.Second)
 		h.AppHash = env.App.LastCommitID().Hash
 		var votes []abci.VoteInfo
@@ -309,10 +386,10 @@ func runC08Worker(a *Args) error {
 			sid, _ := assetstypes.GetStakerIDAndAssetID(101, st.Bytes(), nil)
 			fmt.Fprintf(os.Stderr, "staker %d rewards: %s\n", i, env.App.DistrKeeper.GetStakerRewards(ctx, sid).Rewards.String())
 		}
-		for _, id := range w.taskIDs {
-			ti, err := env.App.AVSManagerKeeper.GetTaskInfo(ctx, strconv.FormatUint(id, 10), w.taskAddr)
+		for _, t := range w.tasks {
+			ti, err := env.App.AVSManagerKeeper.GetTaskInfo(ctx, strconv.FormatUint(t.ID, 10), w.avss[t.AVS].TaskAddr)
 			if err == nil {
-				fmt.Fprintf(os.Stderr, "task %d: signed=%v nosigned=%v threshold=%d\n", id, ti.SignedOperators, ti.NoSignedOperators, ti.ActualThreshold)
+				fmt.Fprintf(os.Stderr, "task %d/%d: signed=%d nosigned=%d threshold=%d total=%s powers=%v\n", t.AVS, t.ID, len(ti.SignedOperators), len(ti.NoSignedOperators), ti.ActualThreshold, ti.TaskTotalPower, ti.OperatorActivePower)
 			}
 		}
 	}
@@ -320,6 +397,8 @@ func runC08Worker(a *Args) error {
 	if err != nil {
 		return err
 	}
+	rb, _ := json.Marshal(w.restarts)
+	_ = os.WriteFile(filepath.Join(a.Out, "restarts.json"), rb, 0o644)
 	return os.WriteFile(filepath.Join(a.Out, "obs.json"), b, 0o644)
 }
 
@@ -510,7 +589,7 @@ func (w *c08World) exec(op c08Op) c08TxObs {
 			p := &delegationtypes.DelegationOrUndelegationParams{
 				ClientChainID: 101, Action: assetstypes.DelegateTo, AssetsAddress: common.HexToAddress(w.assets[op.C]).Bytes(),
 				OperatorAddress: w.operatorAddr(op.B), StakerAddress: w.stakers[op.A].Bytes(), OpAmount: sdkmath.NewInt(op.Amt),
-				LzNonce: uint64(env.Header.Height)*1000 + uint64(len(w.taskIDs)) + uint64(op.A*10+op.C),
+				LzNonce: uint64(env.Header.Height)*1000 + uint64(len(w.tasks)) + uint64(op.A*10+op.C),
 				TxHash:  common.BytesToHash(seedBytes(fmt.Sprintf("c08tx/%d/%d/%d/%d", env.Header.Height, op.A, op.B, op.Amt), op.C)),
 			}
 			if op.Kind == "delegate" {
@@ -533,50 +612,62 @@ func (w *c08World) exec(op c08Op) c08TxObs {
 	return c08TxObs{Code: 96}
 }
 
-// avsTask: registers (once) an extra AVS with a task contract address, both assets and an epoch identifier
-// "minute", and a new task whose statistical period ends a few minute-epochs later, by writing the records the
-// AVS keeper itself would write (SetAVSInfo / SetTaskInfo are the keeper's own raw setters).
+// avsTask: registers (once) the two extra AVSs of c08AVSs (SetAVSInfo is the keeper's own raw setter) and opts the
+// genesis operators into them through the real OptIn; then creates, in EVERY one of these AVSs, two tasks whose
+// statistical period ends in the same minute-epoch, with result records of the opted-in operators.
 func (w *c08World) avsTask(ctx sdk.Context, op c08Op) error {
 	k := w.env.App.AVSManagerKeeper
-	avsAddr := "0x00000000000000000000000000000000000c08a5"
-	if len(w.taskIDs) == 0 {
-		_, a1 := assetstypes.GetStakerIDAndAssetIDFromStr(101, "", w.assets[0])
-		_, a2 := assetstypes.GetStakerIDAndAssetIDFromStr(101, "", w.assets[1])
-		if err := k.SetAVSInfo(ctx, &avstypes.AVSInfo{
-			Name: "c08avs", AvsAddress: avsAddr, TaskAddr: w.taskAddr, EpochIdentifier: "minute", AssetIDs: []string{a1, a2},
-			AvsUnbondingPeriod: 2, MinSelfDelegation: 0, StartingEpoch: 1, MinOptInOperators: 1, MinTotalStakeAmount: 1,
-			AvsOwnerAddress: []string{w.env.Operators[0].String()},
-			AvsSlash:        sdk.NewDecWithPrec(1, 1), AvsReward: sdk.NewDecWithPrec(1, 1),
-		}); err != nil {
-			return err
+	if len(w.tasks) == 0 {
+		for i, a := range w.avss {
+			var assetIDs []string
+			for _, ai := range a.Assets {
+				_, id := assetstypes.GetStakerIDAndAssetIDFromStr(101, "", w.assets[ai])
+				assetIDs = append(assetIDs, id)
+			}
+			if err := k.SetAVSInfo(ctx, &avstypes.AVSInfo{
+				Name: fmt.Sprintf("c08avs%d", i), AvsAddress: a.Addr, TaskAddr: a.TaskAddr, EpochIdentifier: "minute", AssetIDs: assetIDs,
+				AvsUnbondingPeriod: 2, MinSelfDelegation: 0, StartingEpoch: 1, MinOptInOperators: 1, MinTotalStakeAmount: 1,
+				AvsOwnerAddress: []string{w.env.Operators[0].String()},
+				AvsSlash:        sdk.NewDecWithPrec(1, 1), AvsReward: sdk.NewDecWithPrec(1, 1),
+			}); err != nil {
+				return err
+			}
+			for _, oi := range a.Ops {
+				if err := w.env.App.OperatorKeeper.OptIn(ctx, w.env.Operators[oi], a.Addr); err != nil {
+					return err
+				}
+			}
 		}
 	}
 	ep, found := w.env.App.EpochsKeeper.GetEpochInfo(ctx, "minute")
 	if !found {
 		return fmt.Errorf("no minute epoch")
 	}
-	// three tasks at once with the same statistical period: their groups are processed by the same epoch hook call,
-	// in the iteration order of the groupedTasks map
-	// opted-in operators: the two genesis operators plus three that never answer, so that types.Difference has
-	// several leftovers in its map
-	ops := []string{w.env.Operators[0].String(), w.env.Operators[1].String()}
-	for i := 0; i < 3; i++ {
-		ops = append(ops, sdk.AccAddress(w.env.AccAddrs[i].Bytes()).String())
-	}
-	for n := 0; n < 3; n++ {
-		id := uint64(len(w.taskIDs) + 1)
-		if err := k.SetTaskInfo(ctx, &avstypes.TaskInfo{
-			TaskContractAddress: w.taskAddr, Name: fmt.Sprintf("task%d", id), TaskId: id, Hash: []byte("c08"),
-			TaskResponsePeriod: 1, TaskStatisticalPeriod: uint64(1 + op.A), TaskChallengePeriod: 1, ThresholdPercentage: 60,
-			StartingEpoch: uint64(ep.CurrentEpoch), OptInOperators: ops, TaskTotalPower: sdk.ZeroDec(),
-		}); err != nil {
-			return err
+	for ai, a := range w.avss {
+		// opted-in operators of the task: the AVS's operators plus three that never answer, so that
+		// types.Difference has several leftovers in its map
+		var ops []string
+		for _, oi := range a.Ops {
+			ops = append(ops, w.env.Operators[oi].String())
 		}
-		w.taskIDs = append(w.taskIDs, id)
-		for j := 0; j < 2; j++ {
-			if (int(id)+j+op.A)%4 != 0 {
-				if err := w.avsResult(ctx, c08Op{A: len(w.taskIDs) - 1, B: j, Amt: int64(n)}); err != nil {
-					return err
+		for i := 0; i < 3; i++ {
+			ops = append(ops, sdk.AccAddress(w.env.AccAddrs[i].Bytes()).String())
+		}
+		for n := 0; n < 2; n++ {
+			id := uint64(len(w.tasks) + 1)
+			if err := k.SetTaskInfo(ctx, &avstypes.TaskInfo{
+				TaskContractAddress: a.TaskAddr, Name: fmt.Sprintf("task%d", id), TaskId: id, Hash: []byte("c08"),
+				TaskResponsePeriod: 1, TaskStatisticalPeriod: uint64(1 + op.A), TaskChallengePeriod: 1, ThresholdPercentage: 60,
+				StartingEpoch: uint64(ep.CurrentEpoch), OptInOperators: ops, TaskTotalPower: sdk.ZeroDec(),
+			}); err != nil {
+				return err
+			}
+			w.tasks = append(w.tasks, c08Task{ai, id})
+			for j := range a.Ops {
+				if j == 0 || (int(id)+op.A)%3 != 0 { // the first operator always answers: every group has a signed result
+					if err := w.avsResult(ctx, c08Op{A: len(w.tasks) - 1, B: j, Amt: int64(n)}); err != nil {
+						return err
+					}
 				}
 			}
 		}
@@ -584,19 +675,20 @@ func (w *c08World) avsTask(ctx sdk.Context, op c08Op) error {
 	return nil
 }
 
-// avsResult stores a task result record for an operator under the key the keeper uses
+// avsResult stores a task result record for an operator of the task's AVS under the key the keeper uses
 // (operator/taskAddr/taskID), with a non-empty signature (the epoch hook only looks at its presence).
 func (w *c08World) avsResult(ctx sdk.Context, op c08Op) error {
-	if len(w.taskIDs) == 0 {
+	if len(w.tasks) == 0 {
 		return fmt.Errorf("no task")
 	}
-	id := w.taskIDs[op.A%len(w.taskIDs)]
-	operator := w.env.Operators[op.B].String()
+	t := w.tasks[op.A%len(w.tasks)]
+	a := w.avss[t.AVS]
+	operator := w.env.Operators[a.Ops[op.B%len(a.Ops)]].String()
 	info := &avstypes.TaskResultInfo{
 		OperatorAddress: operator, TaskResponseHash: "", TaskResponse: nil, BlsSignature: []byte{1, 2, 3, byte(op.Amt)},
-		TaskContractAddress: w.taskAddr, TaskId: id, Stage: avstypes.TwoPhaseCommitOne,
+		TaskContractAddress: a.TaskAddr, TaskId: t.ID, Stage: avstypes.TwoPhaseCommitOne,
 	}
-	key := assetstypes.GetJoinedStoreKey(strings.ToLower(operator), strings.ToLower(w.taskAddr), strconv.FormatUint(id, 10))
+	key := assetstypes.GetJoinedStoreKey(strings.ToLower(operator), strings.ToLower(a.TaskAddr), strconv.FormatUint(t.ID, 10))
 	store := ctx.KVStore(w.env.App.GetKey(avstypes.StoreKey))
 	bz := w.env.App.AppCodec().MustMarshal(info)
 	store.Set(append(append([]byte{}, avstypes.KeyPrefixTaskResult...), key...), bz)
@@ -611,34 +703,44 @@ type c08Case struct {
 	Script  []c08Block      `json:"script"`
 	Procs   []string        `json:"procs"` // GOMAXPROCS of each process
 	Obs     [][]c08BlockObs `json:"obs"`
+	Restart []int64         `json:"restarts_of_last_process"` // heights before whose BeginBlock the LAST process re-created the oracle's memory from the store
 	Tags    []string        `json:"tags,omitempty"`
 	NT      bool            `json:"nt"`
 	Diverge string          `json:"first_divergence,omitempty"`
 }
 
-func c08RunWorker(seed int64, blocks int, dir string, gomaxprocs string, scenario string) ([]c08BlockObs, error) {
+func c08RunWorker(seed int64, blocks int, dir string, gomaxprocs string, scenario string, restart bool) ([]c08BlockObs, []int64, error) {
 	if err := os.MkdirAll(dir, 0o755); err != nil {
-		return nil, err
+		return nil, nil, err
 	}
 	cmd := exec.Command(os.Args[0], "c08worker", "-seed", strconv.FormatInt(seed, 10), "-n", strconv.Itoa(blocks), "-out", dir)
 	cmd.Env = append(os.Environ(), "GOMAXPROCS="+gomaxprocs, "C08_SCENARIO="+scenario)
+	if restart {
+		cmd.Env = append(cmd.Env, "C08_RESTART=1")
+	} else {
+		cmd.Env = append(cmd.Env, "C08_RESTART=")
+	}
 	out, err := cmd.CombinedOutput()
 	if err != nil {
 		tail := string(out)
 		if len(tail) > 3000 {
 			tail = tail[len(tail)-3000:]
 		}
-		return nil, fmt.Errorf("worker failed: %v\n%s", err, tail)
+		return nil, nil, fmt.Errorf("worker failed: %v\n%s", err, tail)
 	}
 	b, err := os.ReadFile(filepath.Join(dir, "obs.json"))
 	if err != nil {
-		return nil, err
+		return nil, nil, err
 	}
 	var obs []c08BlockObs
 	if err := json.Unmarshal(b, &obs); err != nil {
-		return nil, err
+		return nil, nil, err
 	}
-	return obs, nil
+	var restarts []int64
+	if rb, err := os.ReadFile(filepath.Join(dir, "restarts.json")); err == nil {
+		_ = json.Unmarshal(rb, &restarts)
+	}
+	return obs, restarts, nil
 }
 
 func c08ObsCoq(o c08BlockObs) string {
@@ -704,7 +806,12 @@ func runC08(a *Args) error {
 				defer wg.Done()
 				sem <- struct{}{}
 				defer func() { <-sem }()
-				cs.Obs[pi], errs[pi] = c08RunWorker(cs.Seed, blocks, filepath.Join(a.Out, fmt.Sprintf("w%d_%d", ci, pi)), procs[pi], scenario)
+				restart := pi == len(procs)-1 && os.Getenv("C08_NO_RESTART") == ""
+				var rs []int64
+				cs.Obs[pi], rs, errs[pi] = c08RunWorker(cs.Seed, blocks, filepath.Join(a.Out, fmt.Sprintf("w%d_%d", ci, pi)), procs[pi], scenario, restart)
+				if restart {
+					cs.Restart = rs
+				}
 			}(pi)
 		}
 		wg.Wait()
@@ -728,6 +835,7 @@ func runC08(a *Args) error {
 			}
 		}
 		w.CountN("blocks", blocks)
+		w.CountN("restarts-in-last-process", len(cs.Restart))
 		w.CountN("processes", len(procs))
 		// first divergence, for humans
 		for bi := 0; bi < blocks && cs.Diverge == ""; bi++ {
